@@ -720,6 +720,24 @@ def blocked_cancel_workload(rng):
                 peer_spec=dict(kind='prompt', names=['prompt'], table=[('reply', 0.0)]))
 
 
+def blocked_partial_cancel_workload(rng):
+    """the send buffer is full; some of the callers blocked in their write give up (cancelled by their
+    owner), further callers arrive while it is still full; after it drains everybody who is still
+    there must get the answer to his own request"""
+    cfg = dict(timeout=rng.choice([5.0, 30.0]), trt=3.0, recal=30, send_delay=20.0)
+    n1 = rng.randint(3, 8)
+    n2 = rng.randint(2, 5)
+    callers = [dict(id=i, start=0.25, kind='single' if rng.random() < 0.8 else 'batch', items=[True, True])
+               for i in range(n1)]
+    for c in callers:
+        if c['kind'] == 'single':
+            del c['items']
+    callers += [dict(id=n1 + j, start=2.0 + j * 0.25, kind='single') for j in range(n2)]
+    gone = rng.sample(range(n1), rng.randint(1, max(1, n1 // 2)))
+    return dict(cfg=cfg, callers=callers, pauses=[(0.0, 4.0)], cancels=[(i, 1.0) for i in gone],
+                peer_spec=dict(kind='prompt', names=['prompt'], table=[('reply', 0.0)]))
+
+
 def loss_while_queued_workload(rng):
     """more callers than the limit, a peer that does not answer, the connection is lost while the
     excess is still queued for a slot: everybody - awaiting a response or queued - is cancelled"""
@@ -858,9 +876,11 @@ def run(ctx):
     res['scopes']['stepover_workloads'] = nso
     ntg = 4
     for gen, name in ((lower_then_raise_workload, 'lower_then_raise'), (blocked_cancel_workload, 'blocked_cancel'),
+                      (blocked_partial_cancel_workload, 'blocked_partial_cancel'),
                       (loss_while_queued_workload, 'loss_while_queued')):
         evaluate_workloads(ctx, res, [gen(rng) for _ in range(ntg)], name)
-    res['scopes']['targeted_workloads'] = {'lower_then_raise': ntg, 'blocked_cancel': ntg, 'loss_while_queued': ntg}
+    res['scopes']['targeted_workloads'] = {'lower_then_raise': ntg, 'blocked_cancel': ntg,
+                                           'blocked_partial_cancel': ntg, 'loss_while_queued': ntg}
     # (c) exhaustive recalibration grid
     full = ctx.tier == 'thorough'
     cases = list(recalc_cases(full and not _failed(res, known)))
